@@ -210,6 +210,11 @@ func C12(r *core.Report) {
 					return true
 				}
 				key := mk(fmt.Sprintf("%s#assert:%s", f.Key, core.ExprStr(x)))
+				if decodedLinkAssertion(p, f, x) {
+					key = mk(fmt.Sprintf("%s#assert:decoded-link.(cidlink.Link)", f.Key))
+					report("C12.R1", key, pos(r, x), true, "a link of a node decoded by this repository's decoders: they construct every link as cidlink.Link (checked: ipldbindcode stores nothing else into a Link slot)", "", f)
+					return true
+				}
 				if c, ok := core.Unparen(x.X).(*ast.CallExpr); ok && core.CalleeName(info, c) == "sync.(*Pool).Get" {
 					report("C12.R1", key, pos(r, x), true, "value taken from a sync.Pool the package fills itself (not input data)", "", f)
 					return true
@@ -1059,4 +1064,134 @@ func paramLongEnoughAtCallers(p *core.Prog, f *core.Func, base ast.Expr, need in
 		}
 	}
 	return true, fmt.Sprintf("every one of the %d callers passes at least %d bytes for %s", len(callers), need, o.Name())
+}
+
+// decodedLinkAssertion: x.(cidlink.Link) where x is a link taken out of a node that this repository's own decoders
+// produced (an element of an ipldbindcode.List__Link, or a datamodel.Link field of an ipldbindcode node). Those decoders
+// build every link as cidlink.Link{Cid: ...}; that supporting fact is checked once per run by linkSlotsHoldCidlinks.
+func decodedLinkAssertion(p *core.Prog, f *core.Func, x *ast.TypeAssertExpr) bool {
+	info := f.Pkg.TypesInfo
+	if t := info.TypeOf(x.Type); t == nil || !strings.HasSuffix(t.String(), "linking/cid.Link") {
+		return false
+	}
+	st := info.TypeOf(x.X)
+	if st == nil || !strings.HasSuffix(st.String(), "datamodel.Link") {
+		return false
+	}
+	if !linkSlotsHoldCidlinks(p) {
+		return false
+	}
+	fromNode := func(e ast.Expr) bool {
+		t := info.TypeOf(e)
+		if t == nil {
+			return false
+		}
+		s := t.String()
+		return strings.Contains(s, "ipld/ipldbindcode.")
+	}
+	switch e := core.Unparen(x.X).(type) {
+	case *ast.SelectorExpr: // node.Rewards
+		return fromNode(e.X)
+	case *ast.IndexExpr: // node.Entries[i]
+		return fromNode(e.X) || func() bool {
+			if se, ok := core.Unparen(e.X).(*ast.SelectorExpr); ok {
+				return fromNode(se.X)
+			}
+			return false
+		}()
+	case *ast.Ident: // range value over a List__Link, or a local copy of one of the above
+		o := info.ObjectOf(e)
+		found := false
+		ast.Inspect(f.Root().Body, func(n ast.Node) bool {
+			switch s := n.(type) {
+			case *ast.RangeStmt:
+				if s.Value != nil && core.ObjOf(info, s.Value) == o {
+					if t := info.TypeOf(s.X); t != nil && (strings.Contains(t.String(), "ipld/ipldbindcode.List__Link") || strings.Contains(t.String(), "[]github.com/ipld/go-ipld-prime/datamodel.Link")) {
+						found = true
+					}
+				}
+			case *ast.AssignStmt:
+				for i, l := range s.Lhs {
+					if core.ObjOf(info, l) == o && i < len(s.Rhs) {
+						switch r := core.Unparen(s.Rhs[i]).(type) {
+						case *ast.SelectorExpr:
+							if fromNode(r.X) {
+								found = true
+							}
+						case *ast.IndexExpr:
+							if t := info.TypeOf(r.X); t != nil && strings.Contains(t.String(), "List__Link") {
+								found = true
+							}
+						}
+					}
+				}
+			}
+			return true
+		})
+		return found
+	}
+	return false
+}
+
+var linkSlotsChecked, linkSlotsOK bool
+
+// linkSlotsHoldCidlinks: in package ipld/ipldbindcode every value appended to a List__Link or assigned to a
+// datamodel.Link-typed destination by the hand-written decoders is a cidlink.Link composite literal.
+func linkSlotsHoldCidlinks(p *core.Prog) bool {
+	if linkSlotsChecked {
+		return linkSlotsOK
+	}
+	linkSlotsChecked, linkSlotsOK = true, true
+	pkg := p.Pkg("ipld/ipldbindcode")
+	if pkg == nil {
+		linkSlotsOK = false
+		return false
+	}
+	info := pkg.TypesInfo
+	isLinkT := func(t types.Type) bool { return t != nil && strings.HasSuffix(t.String(), "datamodel.Link") }
+	isCidlinkLit := func(e ast.Expr) bool {
+		cl, ok := core.Unparen(e).(*ast.CompositeLit)
+		if !ok {
+			return false
+		}
+		t := info.TypeOf(cl)
+		return t != nil && strings.HasSuffix(t.String(), "linking/cid.Link")
+	}
+	n := 0
+	for _, file := range pkg.Syntax {
+		fname := p.Fset.Position(file.Pos()).Filename
+		if strings.HasSuffix(fname, "_test.go") || !strings.HasSuffix(fname, "cbor.go") {
+			continue
+		}
+		ast.Inspect(file, func(m ast.Node) bool {
+			switch s := m.(type) {
+			case *ast.AssignStmt:
+				for i, l := range s.Lhs {
+					if i >= len(s.Rhs) || !isLinkT(info.TypeOf(l)) {
+						continue
+					}
+					n++
+					if !isCidlinkLit(s.Rhs[i]) {
+						linkSlotsOK = false
+					}
+				}
+			case *ast.CallExpr:
+				if core.BuiltinName(info, s) == "append" && len(s.Args) == 2 {
+					if t := info.TypeOf(s.Args[0]); t != nil {
+						if sl, ok := t.Underlying().(*types.Slice); ok && isLinkT(sl.Elem()) {
+							n++
+							if !isCidlinkLit(s.Args[1]) {
+								linkSlotsOK = false
+							}
+						}
+					}
+				}
+			}
+			return true
+		})
+	}
+	if n == 0 {
+		linkSlotsOK = false
+	}
+	return linkSlotsOK
 }
